@@ -33,6 +33,7 @@ type Obligation struct {
 	Pos    string
 	Extra  []string // extra declarations/assertions local to this obligation
 	TimeoutMs int     // per-obligation solver budget override (0: tier default)
+	Expand func() []*Obligation // on failure: finer obligations that localise the failure
 	Batch  string     // obligations with the same batch key share one incremental solver run
 	localSlice bool   // (solver driver) build the query with the aggressive local slice
 	noLocal   bool
@@ -110,6 +111,10 @@ type VC struct {
 	readLog  map[string]bool
 	pureReads []string
 	hiddenTables map[string]bool
+	defs      map[string]string // named definitions (symbol -> term)
+	defW      map[string]int    // bit-vector width of named definitions
+	storeDefs map[string]storeInfo
+	noSimplify bool
 	untracked map[string]bool      // heaps modified through paths that do not record keys
 	heapMods  map[string][]heapMod // keys (terms) at which tracked modifications happened
 	effCall  *ssa.CallCommon
@@ -139,7 +144,7 @@ func newVC(w *World, fn *ssa.Function, c *Contract) *VC {
 	return &VC{w: w, fn: fn, contract: c, declared: map[string]bool{}, pureDone: map[*SpecFn]bool{},
 		heapSort: map[string]string{}, strDone: map[int]bool{}, strSrc: map[string]*strSource{}, strCat: map[string][2]Val{},
 		tableDone: map[string]bool{}, ordinals: map[string]int{}, trusted: map[string]bool{}, snapArrays: map[string][]string{},
-		nonNil: map[string]bool{}, ghostSorts: map[string]string{}, revealed: map[string]bool{}, ifacePtr: map[string]*PtrDesc{}, rtypeOf: map[string]Val{}, freshKeys: map[string]bool{}, dirty: map[string]bool{}, durParts: map[string][2]string{}, hiddenTables: map[string]bool{}, untracked: map[string]bool{}, heapMods: map[string][]heapMod{}}
+		nonNil: map[string]bool{}, ghostSorts: map[string]string{}, revealed: map[string]bool{}, ifacePtr: map[string]*PtrDesc{}, rtypeOf: map[string]Val{}, freshKeys: map[string]bool{}, dirty: map[string]bool{}, durParts: map[string][2]string{}, hiddenTables: map[string]bool{}, defs: map[string]string{}, defW: map[string]int{}, storeDefs: map[string]storeInfo{}, untracked: map[string]bool{}, heapMods: map[string][]heapMod{}}
 }
 
 type outsideSubset struct{ msg string }
@@ -200,7 +205,16 @@ func (vc *VC) define(prefix, sort, term string) string {
 	}
 	n := vc.freshConst(prefix, sort)
 	vc.script = append(vc.script, "(assert (= "+n+" "+term+"))")
+	vc.noteDef(n, sort, term)
 	return n
+}
+
+func (vc *VC) noteDef(n, sort, term string) {
+	var w int
+	if _, err := fmt.Sscanf(sort, "(_ BitVec %d)", &w); err == nil {
+		vc.defs[n] = term
+		vc.defW[n] = w
+	}
 }
 
 func (vc *VC) oblige(st *State, kind, label, goal string, pos token.Pos, props []string) {
@@ -331,9 +345,11 @@ func (vc *VC) loadDesc(st *State, d *PtrDesc) Val {
 	v := Val{T: d.T}
 	for _, ll := range vc.leafLocs(d) {
 		h := vc.heapTerm(st, ll.name, ll.sort)
-		t := sel(h, ll.key)
+		var t string
 		if ll.idx != "" {
-			t = sel(t, ll.idx)
+			t = sel(sel(h, ll.key), ll.idx)
+		} else {
+			t = vc.smartSelect(h, ll.key)
 		}
 		v.L = append(v.L, t)
 	}
@@ -358,6 +374,9 @@ func (vc *VC) storeDesc(st *State, d *PtrDesc, v Val) {
 			nt = sto(h, ll.key, v.L[k])
 		}
 		vc.setHeapTracked(st, ll.name, ll.sort, nt)
+		if ll.idx == "" && !vc.noSimplify {
+			vc.storeDefs[st.heap.m[ll.name]] = storeInfo{prev: h, key: ll.key, val: v.L[k]}
+		}
 	}
 }
 
@@ -477,6 +496,7 @@ func (vc *VC) setVal(fr *Frame, v ssa.Value, val Val) {
 		}
 		vc.declare(n, lay.Leaves[k].Sort)
 		vc.script = append(vc.script, "(assert (= "+n+" "+t+"))")
+		vc.noteDef(n, lay.Leaves[k].Sort, t)
 		out.L = append(out.L, n)
 	}
 	fr.vals[v] = out
